@@ -1,0 +1,102 @@
+//! Verification hooks (compiled only with `--cfg googlefonts_fontations_verif`).
+//!
+//! - an owned "schedule" for the process-wide object counter: a thread-local queue of gaps, each
+//!   consumed by one `ObjectId::next()` call, which first advances the counter by that gap. An
+//!   arbitrary gap sequence is exactly the observable effect of an arbitrary interleaving with
+//!   other threads that are allocating ids at the same time.
+//! - packing + serialization of a caller-described mock graph, returning the bytes together with
+//!   the final object positions.
+
+use super::{Graph, ObjectId, OffsetLen, OBJECT_COUNTER};
+use crate::{
+    table_type::TableType,
+    write::{OffsetRecord, TableData},
+};
+use std::{cell::RefCell, collections::BTreeMap, collections::VecDeque};
+
+thread_local! {
+    static ID_GAPS: RefCell<VecDeque<u64>> = const { RefCell::new(VecDeque::new()) };
+}
+
+/// Queue gaps for the following `ObjectId::next()` calls on this thread (replaces any old queue).
+pub fn push_id_gaps(gaps: Vec<u64>) {
+    ID_GAPS.with(|g| *g.borrow_mut() = gaps.into());
+}
+
+/// Number of queued gaps not yet consumed on this thread.
+pub fn pending_id_gaps() -> usize {
+    ID_GAPS.with(|g| g.borrow().len())
+}
+
+pub(super) fn apply_next_id_gap() {
+    if let Some(gap) = ID_GAPS.with(|g| g.borrow_mut().pop_front()) {
+        OBJECT_COUNTER.fetch_add(gap, std::sync::atomic::Ordering::Relaxed);
+    }
+}
+
+/// One offset of a mock node.
+#[derive(Clone, Debug)]
+pub struct MockLink {
+    /// index of the target node in the slice passed to [`pack_mock_graph`]
+    pub target: usize,
+    /// 2, 3 or 4
+    pub width: u8,
+    /// position of the offset field inside the node's bytes
+    pub pos: u32,
+    /// value subtracted from the resolved offset before writing
+    pub adjustment: u32,
+}
+
+/// One object of a mock graph; node 0 is the root.
+#[derive(Clone, Debug)]
+pub struct MockNode {
+    pub bytes: Vec<u8>,
+    pub links: Vec<MockLink>,
+}
+
+/// The result of packing a mock graph.
+#[derive(Clone, Debug)]
+pub struct PackedMock {
+    pub bytes: Vec<u8>,
+    /// final layout: (index of the input node, or `None` for an object created during packing,
+    /// position in `bytes`, length)
+    pub layout: Vec<(Option<usize>, u32, u32)>,
+}
+
+/// Build a graph from the node descriptions (no deduplication), pack and serialize it.
+///
+/// Returns `None` when packing fails.
+pub fn pack_mock_graph(nodes: &[MockNode]) -> Option<PackedMock> {
+    let ids: Vec<ObjectId> = nodes.iter().map(|_| ObjectId::next()).collect();
+    let mut objects = BTreeMap::new();
+    for (node, id) in nodes.iter().zip(&ids) {
+        let mut data = TableData::new(TableType::MockTable);
+        data.bytes = node.bytes.clone();
+        for link in &node.links {
+            data.offsets.push(OffsetRecord {
+                pos: link.pos,
+                len: match link.width {
+                    2 => OffsetLen::Offset16,
+                    3 => OffsetLen::Offset24,
+                    _ => OffsetLen::Offset32,
+                },
+                object: ids[link.target],
+                adjustment: link.adjustment,
+            });
+        }
+        objects.insert(*id, data);
+    }
+    let mut graph = Graph::from_objects(objects, ids[0]);
+    if !graph.pack_objects() {
+        return None;
+    }
+    let bytes = graph.serialize();
+    let mut layout = Vec::new();
+    let mut pos = 0u32;
+    for id in &graph.order {
+        let len = graph.objects[id].bytes.len() as u32;
+        layout.push((ids.iter().position(|x| x == id), pos, len));
+        pos += len;
+    }
+    Some(PackedMock { bytes, layout })
+}
